@@ -16,14 +16,59 @@ def classify(v, svg, opt, o1, adoc, rec):
     return key
 
 
+def _steps(job):
+    svg, drop = job
+    from picosvg import _verif
+    from picosvg.svg import SVG
+    ev = []
+    _verif.install(lambda n, f: ev.append(f["name"]) if n == "step" else None)
+    try:
+        SVG.fromstring(svg).topicosvg(drop_unsupported=bool(drop))
+    except Exception:  # noqa
+        pass
+    finally:
+        _verif.install(None)
+    return {"drop": drop, "ev": ev}
+
+
+def pipeline_binding(out, srcs, tier):
+    """design check of the step-order model + binding of the model to the real step order (hooks)"""
+    from . import common
+    wd = common.workdir("c07p")
+    try:
+        r = common.tlc("Pipeline", "Pipeline_repaired.cfg", wd, timeout=1800)
+        out.add_tlc(r)
+        n = 300 if tier == "quick" else 3000
+        jobs = [(svg, k % 2) for k, (name, svg, adoc) in enumerate(srcs[:: max(1, len(srcs) // n)][:n])]
+        recs = common.pmap(_steps, jobs)
+        verdicts, st, tr = common.validate_traces("TracePipeline", "TracePipeline.cfg", recs, wd)
+        out.coverage["states"] += st
+        out.coverage["transitions"] += tr
+        hist = {}
+        for v in verdicts:
+            k = v if v.startswith("ok") else "drift"
+            hist[k] = hist.get(k, 0) + 1
+        out.coverage["parts"]["pipeline_step_order"] = hist
+        out.coverage["parts"]["pipeline_drift_examples"] = sorted({v for v in verdicts if v.startswith("drift")})[:3]
+        out.coverage["drift"] += hist.get("drift", 0)
+        if hist.get("drift"):
+            print("MODEL-DRIFT C07: the recorded topicosvg step order is not a run of Pipeline.tla: %s"
+                  % out.coverage["parts"]["pipeline_drift_examples"][:1])
+    finally:
+        common.cleanup(wd)
+
+
 def run(out, tier):
-    structural.run_structural(
+    srcs, recs, verdicts = structural.run_structural(
         out, "C07", tier, ("ok:fixpoint",),
         "documents drawn by TLC from Build.tla (all foci) plus tests/*.svg x ndigits/options vectors; "
         "each accepted document is converted three times with the same options; events "
         "Convert(pass, hash) are judged by the action property 'after pass 1 every conversion "
         "stutters' and the library's own check must report nothing on pass 1; non-trivial = pass 1 "
-        "returned normally", classify)
+        "returned normally. Additionally Pipeline.tla (step-order model of topicosvg) is model-checked "
+        "(CheckedIsPico on all 65536 abstract documents) and bound to the code by validating the hooked "
+        "step events of real conversions against it (drift only)", classify)
+    pipeline_binding(out, srcs, tier)
 
 
 replay = structural.replay
